@@ -10,12 +10,12 @@ from .common import func_params, value_returns, last_return
 
 PROPERTY = 'C13'
 EXPLANATION = (
-    'Decided from source: (C13.1) dependency closure: the statements of extract() that add cells because a formula '
-    'mentions them feed back into the statements that scan formulas for terms (common loop whose work-set grows, recursion, '
-    'or a helper with that property) - a single pass copies direct dependencies only; (C13.2) terms that denote ranges (":") '
-    'are not looked up in the cells map and the ranges of the extracted model are populated; (C13.3) every object stored '
-    'into the extracted model derives from the original through copy.deepcopy, and extract() stores nothing into the '
-    'original model; (C13.5) set_cell_value/get_cell_value write and read through the cells map (names and cells are '
+    'Decided from source: (C13.1) dependency closure: extract() is partially evaluated on abstract models (a chain, a '
+    'diamond, a deeper tree) and every transitive precedent of the focus must be in the extracted cells map '
+    '- a single pass copies direct dependencies only; (C13.2) terms that denote ranges (":") '
+    'are not looked up in the cells map and the ranges of the extracted model are populated; (C13.3) every object found '
+    'in the extracted model after the run is a copy.deepcopy (identity-preserving model) of the original\'s object and still '
+    'carries its formula, and extract() stores nothing into the original model; (C13.5) set_cell_value/get_cell_value write and read through the cells map (names and cells are '
     'separate copies in the extracted model), so the same input change has the same effect on both models; (C13.4) focus entries are taken from cells and from defined names, and the extracted model is compiled.')
 NOT_DECIDED = 'value equality after arbitrary input changes'
 TRUSTED = ['copy.deepcopy yields an independent object graph']
